@@ -77,8 +77,19 @@ class DirectoryPaths(AbstractPaths):
         prefix
             A prefix to add to the path which is the name of the folder the file is saved in.
         """
-        with open_(self._path_for_json(name, prefix), "w+") as f:
-            json.dump(object_dict, f, indent=4)
+        path_ = Path(self._path_for_json(name, prefix))
+        temporary = path_.with_name(path_.name + ".tmp")
+        try:
+            with open_(temporary, "w+") as f:
+                json.dump(object_dict, f, indent=4)
+        except BaseException:
+            # never leave a truncated json behind (an interrupted or failed write keeps the previous file)
+            try:
+                os.remove(temporary)
+            except OSError:
+                pass
+            raise
+        os.replace(temporary, path_)
 
     def load_json(self, name, prefix: str = ""):
         with open_(self._path_for_json(name, prefix)) as f:
